@@ -3,11 +3,13 @@
 (patch.diff, demo.rs, notes.md from the independent agent, meta.json written here from /tmp/seedres/<Cnn>-<mK>.txt)."""
 import json, os, re, shutil, sys
 pid, m, crate = sys.argv[1:4]
-src = f"/tmp/seed/{pid}/out/{m}"
-res = open(f"/tmp/seedres/{pid}-{m}.txt").read()
+root = os.environ.get("SEED_ROOT", "/tmp/seed"); resdir = os.environ.get("SEED_RES", "/tmp/seedres")
+src = f"{root}/{pid}/out/{m}"
+res = open(f"{resdir}/{pid}-{m}.txt").read()
+keep_m = "m%d" % (int(m[1:]) + int(os.environ.get("SEED_OFFSET", "0")))
 if "CONFIRMED" not in res or "NOT-CONFIRMED" in res:
     print("not confirmed:", pid, m); sys.exit(1)
-dst = f"/verif/seeded/{pid}-{m}"
+dst = f"/verif/seeded/{pid}-{keep_m}"
 os.makedirs(dst, exist_ok=True)
 for f in ("patch.diff", "demo.rs", "notes.md"):
     if os.path.exists(f"{src}/{f}"):
